@@ -18,6 +18,7 @@ type FnResult struct {
 	Unsupported string
 	Notes       *RunNotes
 	BV          bool
+	Names       FnNames
 }
 
 func (e *Engine) teFor(ct *Contract) *TypeEnv {
@@ -62,6 +63,13 @@ func (e *Engine) verifyContract(ct *Contract) (res *FnResult) {
 	}
 	fc := &FnCtx{E: e, Fn: fn, C: ct, S: S, TE: te, vals: map[ssa.Value]Val{}, initHeap: map[string]Term{}, notes: res.Notes, params: map[string]Val{}, paramTy: map[string]types.Type{}, held: map[string]bool{}}
 	fc.top = fc
+	res.Names = namesOf(fn)
+	if rec, ok := e.recorded[res.FullName]; ok {
+		fc.alias = aliasesFor(rec, res.Names)
+		for old, cur := range fc.alias {
+			res.Notes.Assumed["contract name '"+old+"' of "+res.FullName+" read as '"+cur+"' (the variable in the same position was renamed)"] = true
+		}
+	}
 	st := &State{PC: TTrue, Heap: map[string]Term{}}
 	S.Assume(app(SBool, ">=", fc.heapGet(st, nextVar), IntLit(1)), "allocation counter starts above nil")
 	S.Assume(app(SBool, ">=", fc.heapGet(st, nowVar), IntLit(0)), "clock")
